@@ -21,9 +21,13 @@ and capture stack correspond to the evaluator's statement state `est` (`StSim`):
 * an error ⟹ a rendering error of the same class; never a panic;
 
 whatever the nested interpreter `rec` is — except at an `Include`, the only instruction of the
-fragment that calls it: there the run (`RunI` / `FailsI`, Lemmas/RefineRunI.lean) contains a
-complete run of the included template's chunk, obtained from the induction hypothesis at the
-included template's VM and chunk (`NodeSimAll`: the statement for every VM and chunk).  Induction on
+fragment that calls it: there the run (`RunI` / `FailsI`, Lemmas/RefineRunI.lean) records what the
+nested call does for every large enough fuel (`InclDone` / `InclErr`), which `node_step` takes from
+an ORACLE (`IncOracle`: the nested call writes what the evaluator writes for the included body).
+With `TemplatesRel` (included templates hold their compiled, unoptimised bodies) the oracle is the
+induction hypothesis at the included template's VM and chunk (`NodeSimAll`: the statement for
+every VM and chunk; `incOracle_of_templatesRel`); Props/RefineE2E.lean supplies it for stored,
+optimised chunks instead (`nodeSimAt_of_oracle`).  Induction on
 the evaluator's fuel (`NodeSimAt`: statements, statement lists, the loop of a `for`), on top of
 `expr_sim` / `kwargs_sim`.  Not covered: `block`, component calls (the evaluator does not model
 them: `Err.unsupported`).
@@ -273,6 +277,24 @@ renders with the templates' own autoescape flags (as `Tera::render` does) -/
 def NodeSimAll (venv : Vm.Env) (lf : Bool) (Inc : String → Prop) (eenv : Tera.Env) (fuel : Nat) : Prop :=
   ∀ (vm : VmCtx) (c : Chunk), reportTargetOk venv vm c = true → vm.autoescapeOverride = none →
     NodeSimAt venv vm c lf Inc eenv fuel
+
+/-- What the simulation of `{% include "name" %}` uses, at one level of evaluator fuel: the evaluator
+has the template exactly when the VM has it, and the NESTED CALL of the interpreter on the VM's
+chunk for it (whatever that chunk is: compiled, or compiled and optimised) does what the evaluator
+does on the template's body: ends normally having written the same text (`InclDone`), or fails
+with an error of the evaluator's class (`InclErr`).  `TemplatesRel` gives this for unoptimised
+chunks (`incOracle_of_templatesRel`); Props/RefineE2E.lean gives it for the stored, optimised
+chunks, through C09's optimiser theorem. -/
+def IncOracle (venv : Vm.Env) (eenv : Tera.Env) (Inc : String → Prop) (fuel : Nat) : Prop :=
+  ∀ (vm : VmCtx), vm.autoescapeOverride = none → ∀ name, Inc name →
+    ∀ (st : State) (est : Tera.St), StSim est st →
+    match eenv.template name with
+    | none => venv.template name = none
+    | some t => ∃ tpl, venv.template name = some tpl ∧
+      match execNodes fuel eenv t.autoescape
+          { scope := Scope.included est.scope, out := [], captures := [] } t.nodes with
+      | .error err => reportable err = true → ∃ re, errMatch err re = true ∧ InclErr venv vm tpl st re
+      | .ok p => p.2 = .normal → ∃ stN, InclDone venv vm tpl st stN ∧ stN.out = p.1.out
 
 section
 variable {venv : Vm.Env} {vm : VmCtx} {c : Chunk}
@@ -705,9 +727,8 @@ theorem for_head_sim (hE : EnvRel venv eenv) (hB : BuiltinsRel venv eenv)
           simp
 
 theorem node_step (hE : EnvRel venv eenv) (hB : BuiltinsRel venv eenv)
-    (hT : TemplatesRel venv eenv lf Inc)
     (ht : reportTargetOk venv vm c = true) (hov : vm.autoescapeOverride = none) (fuel : Nat)
-    (H : NodeSimAt venv vm c lf Inc eenv fuel) (HA : NodeSimAll venv lf Inc eenv fuel) :
+    (H : NodeSimAt venv vm c lf Inc eenv fuel) (hO : IncOracle venv eenv Inc fuel) :
     ∀ (inLoop : Bool) (n : Node), InCoreNode lf Inc inLoop n →
     ∀ (base : Nat) (loop : Option Nat) (st : State) (est : Tera.St), StSim est st →
     LoopCtx inLoop loop st → CodeAt c base (nodeCode base loop n) →
@@ -884,7 +905,7 @@ theorem node_step (hE : EnvRel venv eenv) (hB : BuiltinsRel venv eenv)
     simp only [sp, Pipeline.vinstr, Option.some.injEq] at hv
     subst hv
     simp only [execNode, nodeCode, List.length_singleton]
-    have hrel := hT.rel name hinc
+    have hrel := hO vm hov name hinc st est hst
     cases het : eenv.template name with
     | none =>
       rw [het] at hrel
@@ -894,29 +915,14 @@ theorem node_step (hE : EnvRel venv eenv) (hB : BuiltinsRel venv eenv)
         Within.single (Nat.le_refl _) (by omega), hnb⟩
     | some t =>
       rw [het] at hrel
-      obtain ⟨tpl, vcode, hvt, hchunk, hemb, hae, hcore⟩ := hrel
+      obtain ⟨tpl, hvt, IH⟩ := hrel
       simp only
-      have hcodeI : CodeAt tpl.chunk 0 (nodesCode 0 none t.nodes) := by
-        rw [hchunk]
-        have := codeAt_of_embed (name := tpl.name) (pre := []) (post := []) hemb
-        simpa using this
-      have htI : reportTargetOk venv (inclVm vm tpl) tpl.chunk = true := by
-        simp [reportTargetOk, inclVm, hchunk]
-      have hstI : StSim { scope := Scope.included est.scope, out := [], captures := [] }
-          (includeState st) := ⟨hst.1.included, rfl, rfl⟩
-      have haeI : (inclVm vm tpl).autoescape = t.autoescape := by
-        simp [VmCtx.autoescape, inclVm, hov, hae]
-      have IH := (HA (inclVm vm tpl) tpl.chunk htI hov).nodes false t.nodes hcore 0 none
-        (includeState st) { scope := Scope.included est.scope, out := [], captures := [] } hstI
-        (fun h => by cases h) hcodeI
-      rw [haeI] at IH
-      have hlenI : (nodesCode 0 none t.nodes).length = vcode.length := (embed_length hemb).symm
       cases hr : execNodes fuel eenv t.autoescape
           { scope := Scope.included est.scope, out := [], captures := [] } t.nodes with
       | error err =>
         rw [hr] at IH
         intro hrep
-        obtain ⟨trN, re, hf, hm, _, _⟩ := IH hrep
+        obtain ⟨re, hm, hf⟩ := IH hrep
         exact ⟨[base], re, FailsI.inclFails hc hvt hf, hm, Within.single (Nat.le_refl _) (by omega), hnb⟩
       | ok p =>
         obtain ⟨est', sig⟩ := p
@@ -925,18 +931,14 @@ theorem node_step (hE : EnvRel venv eenv) (hB : BuiltinsRel venv eenv)
         | brk => simp only; intro h; simp [reportable] at h
         | cont => simp only; intro h; simp [reportable] at h
         | normal =>
-          obtain ⟨trN, scN, _, _, hrunN, _, _⟩ := IH
-          have hrunN' : RunI venv (inclVm vm tpl) tpl.chunk 0 (includeState st) trN
-              (0 + (nodesCode 0 none t.nodes).length) (withSc (includeState st) est' scN) := hrunN
-          have hend : tpl.chunk.code[0 + (nodesCode 0 none t.nodes).length]? = none := by
-            rw [hchunk, hlenI]; simp
-          simp only
+          obtain ⟨stN, hdone, hout⟩ := IH rfl
+          simp only at hout ⊢
           refine ⟨[base], st.scope, ?_, rfl, ?_, Within.single (Nat.le_refl _) (by omega), hnb⟩
           · show ScopeSim (est.write est'.out).scope st.scope
             rw [St.write_scope]; exact hst.1
           · show RunI venv vm c base st [base] (base + 1) _
-            rw [withSc_write hst]
-            exact RunI.incl hc hvt hrunN' hend (RunI.nil _ _ _ _)
+            rw [withSc_write hst, ← hout]
+            exact RunI.incl hc hvt hdone (RunI.nil _ _ _ _)
   | «break» =>
     intro base loop st est hst hctx hcode
     simp only [nodeCode, CodeAt] at hcode
@@ -1482,27 +1484,88 @@ theorem for_step (fuel : Nat) (H : NodeSimAt venv vm c lf Inc eenv fuel) :
             rw [hlb', hlV]
             simpa [ends] using hendsB.2
 
+theorem nodeSimAt_zero : NodeSimAt venv vm c lf Inc eenv 0 := by
+  refine ⟨?_, ?_, ?_⟩
+  · intro _ n _ base loop st est _ _ _
+    simp only [execNode]
+    intro h; simp [reportable] at h
+  · intro _ ns _ base loop st est _ _ _
+    simp only [execNodes]
+    intro h; simp [reportable] at h
+  · intro body _ startIdx st est _ _
+    simp only [execFor]
+    intro h; simp [reportable] at h
+
+/-- the simulation statements at every evaluator fuel, from the include oracle at every smaller
+fuel (the form Props/RefineE2E.lean uses: there the oracle comes from the optimiser theorem) -/
+theorem nodeSimAt_of_oracle (hE : EnvRel venv eenv) (hB : BuiltinsRel venv eenv)
+    (ht : reportTargetOk venv vm c = true) (hov : vm.autoescapeOverride = none) :
+    ∀ fuel, (∀ f, f < fuel → IncOracle venv eenv Inc f) → NodeSimAt venv vm c lf Inc eenv fuel := by
+  intro fuel
+  induction fuel with
+  | zero => exact fun _ => nodeSimAt_zero
+  | succ fuel ih =>
+    intro hO
+    have H := ih (fun f hf => hO f (by omega))
+    exact ⟨node_step hE hB ht hov fuel H (hO fuel (by omega)), nodes_step fuel H, for_step fuel H⟩
+
+/-- `TemplatesRel` (included templates hold their compiled, unoptimised bodies) and the simulation
+at a fuel give the include oracle at that fuel -/
+theorem incOracle_of_templatesRel (hT : TemplatesRel venv eenv lf Inc) (fuel : Nat)
+    (HA : NodeSimAll venv lf Inc eenv fuel) : IncOracle venv eenv Inc fuel := by
+  intro vm hov name hinc st est hst
+  have hrel := hT.rel name hinc
+  cases het : eenv.template name with
+  | none => rw [het] at hrel; exact hrel
+  | some t =>
+    rw [het] at hrel
+    obtain ⟨tpl, vcode, hvt, hchunk, hemb, hae, hcore⟩ := hrel
+    refine ⟨tpl, hvt, ?_⟩
+    have hcodeI : CodeAt tpl.chunk 0 (nodesCode 0 none t.nodes) := by
+      rw [hchunk]
+      have := codeAt_of_embed (name := tpl.name) (pre := []) (post := []) hemb
+      simpa using this
+    have htI : reportTargetOk venv (inclVm vm tpl) tpl.chunk = true := by
+      simp [reportTargetOk, inclVm, hchunk]
+    have hstI : StSim { scope := Scope.included est.scope, out := [], captures := [] }
+        (includeState st) := ⟨hst.1.included, rfl, rfl⟩
+    have haeI : (inclVm vm tpl).autoescape = t.autoescape := by
+      simp [VmCtx.autoescape, inclVm, hov, hae]
+    have IH := (HA (inclVm vm tpl) tpl.chunk htI hov).nodes false t.nodes hcore 0 none
+      (includeState st) { scope := Scope.included est.scope, out := [], captures := [] } hstI
+      (fun h => by cases h) hcodeI
+    rw [haeI] at IH
+    have hlenI : (nodesCode 0 none t.nodes).length = vcode.length := (embed_length hemb).symm
+    cases hr : execNodes fuel eenv t.autoescape
+        { scope := Scope.included est.scope, out := [], captures := [] } t.nodes with
+    | error err =>
+      rw [hr] at IH
+      intro hrep
+      obtain ⟨trN, re, hf, hm, _, _⟩ := IH hrep
+      exact ⟨re, hm, hf.inclErr⟩
+    | ok p =>
+      obtain ⟨est', sig⟩ := p
+      rw [hr] at IH
+      intro hsig
+      simp only at hsig
+      subst hsig
+      obtain ⟨trN, scN, _, _, hrunN, _, _⟩ := IH
+      have hrunN' : RunI venv (inclVm vm tpl) tpl.chunk 0 (includeState st) trN
+          (0 + (nodesCode 0 none t.nodes).length) (withSc (includeState st) est' scN) := hrunN
+      have hend : tpl.chunk.code[0 + (nodesCode 0 none t.nodes).length]? = none := by
+        rw [hchunk, hlenI]; simp
+      exact ⟨_, hrunN'.inclDone hend, rfl⟩
+
 theorem nodeSimAll (hE : EnvRel venv eenv) (hB : BuiltinsRel venv eenv)
     (hT : TemplatesRel venv eenv lf Inc) :
     ∀ fuel, NodeSimAll venv lf Inc eenv fuel := by
   intro fuel
   induction fuel with
-  | zero =>
-    intro vm c _ _
-    refine ⟨?_, ?_, ?_⟩
-    · intro _ n _ base loop st est _ _ _
-      simp only [execNode]
-      intro h; simp [reportable] at h
-    · intro _ ns _ base loop st est _ _ _
-      simp only [execNodes]
-      intro h; simp [reportable] at h
-    · intro body _ startIdx st est _ _
-      simp only [execFor]
-      intro h; simp [reportable] at h
+  | zero => exact fun vm c _ _ => nodeSimAt_zero
   | succ fuel ih =>
     intro vm c ht hov
-    exact ⟨node_step hE hB hT ht hov fuel (ih vm c ht hov) ih, nodes_step fuel (ih vm c ht hov),
-      for_step fuel (ih vm c ht hov)⟩
+    exact ⟨node_step hE hB ht hov fuel (ih vm c ht hov) (incOracle_of_templatesRel hT fuel ih),
+      nodes_step fuel (ih vm c ht hov), for_step fuel (ih vm c ht hov)⟩
 
 theorem nodeSimAt (hE : EnvRel venv eenv) (hB : BuiltinsRel venv eenv)
     (hT : TemplatesRel venv eenv lf Inc)
